@@ -292,6 +292,9 @@ func (g *Gen) genSwitch(budget int) Stmt {
 	t := []*Type{I32, U32}[r.Intn(2)]
 	s := &Switch{Sel: g.genExpr(t, g.depthCfg()-1)}
 	nc := r.Range(1, 4)
+	if g.nest && r.Bool() {
+		nc = 1 // single-body switch (the text backends render it as do { } while (false))
+	}
 	used := map[int64]bool{}
 	defAt := r.Intn(nc)
 	g.fx.inSwitch++
@@ -353,7 +356,7 @@ func (g *Gen) genSwitch(budget int) Stmt {
 // genLoop builds one of for / while / loop with a dedicated bounded counter.
 func (g *Gen) genLoop(budget int) []Stmt {
 	r := g.R
-	if g.fx.loopDepth >= 2 {
+	if g.fx.loopDepth >= 2 && !(g.nest && g.fx.loopDepth < 3) {
 		return nil
 	}
 	bound := r.Range(1, 5)
@@ -560,7 +563,11 @@ func (g *Gen) genCallStmt() Stmt {
 func (g *Gen) genStmts(n int) []Stmt {
 	var out []Stmt
 	r := g.R
-	if g.fx.depth > 3 {
+	maxDepth := 3
+	if g.nest {
+		maxDepth = 5
+	}
+	if g.fx.depth > maxDepth {
 		n = min(n, 1)
 	}
 	g.fx.depth++
@@ -569,7 +576,12 @@ func (g *Gen) genStmts(n int) []Stmt {
 		var s Stmt
 		var ss []Stmt
 		term := false
-		switch r.Pick([]int{10, 6, 3, 2, 3, 2, 1, 1, 1, 1, 1}) {
+		weights := []int{10, 6, 3, 2, 3, 2, 1, 1, 1, 1, 1}
+		if g.nest {
+			// control-nesting profile: loops in switches in loops, single-body switches, break / continue at every level
+			weights = []int{6, 3, 2, 6, 6, 1, 6, 1, 1, 0, 0}
+		}
+		switch r.Pick(weights) {
 		case 0:
 			s = g.genStore()
 		case 1:
